@@ -49,7 +49,8 @@ RULE = (
     "rotator.fit; every entry point with a `normalized` switch also with normalized=True} x every applicable fault: wrong type (ndarray, list of ndarrays, None); sample dim unknown / partly unknown / empty / of wrong type / "
     "equal to all dims (no feature dim left); each dimension of each item dropped (isel with and without scalar coordinate, mean), renamed, one added; "
     "each feature coordinate shifted (disjoint, overlapping), replaced by re-ordered different values, and given the fitted labels in another order "
-    "(reversed, rolled, relabelled; also on a DataArray with ONE feature dim); Dataset variable dropped / renamed / stripped "
+    "(reversed, rolled, relabelled; also on a DataArray with ONE feature dim); Dataset variables (Dataset, 3-variable Dataset, Dataset item of a list) reversed / rolled / "
+    "with an additional variable first or in the middle; rotator n_modes above the model's modes; Dataset variable dropped / renamed / stripped "
     "of one dim; list length -1 / +1; n_modes in {0, -1, rank+1, 'three', 2.5, None}; alpha < 0 (scalar and one of a pair); unknown solver; score arrays "
     "with unknown mode labels, without a mode dimension, of wrong type; cross-set / multi-view fields with different sample counts. "
     "A case is non-trivial when the un-mutated call returned a non-empty finite result and the mutated call was executed and refused"
@@ -57,7 +58,10 @@ RULE = (
 ASSUMPTIONS = [
     "one small well-conditioned data set per container (10 samples; 6 or 8 features; new data of 5 samples) stands for 'all fitted models': the faults are structural, not numeric",
     "'more modes than the rank' is read with the rank the decomposer uses, min(shape) of the matrix it decomposes; n_modes = that + 1",
-    "for rotators only non-positive / non-numeric n_modes is a fault; n_modes above the model's number of modes is not (the statement ties that clause to the rank of data)",
+    "for rotators, besides non-positive / non-numeric n_modes, n_modes above the fitted model's number of modes (modes + 1, 99) is a fault: it asks for more modes than there are "
+    "(all nine rotator classes; the seven Complex/Hilbert/CPCCA ones are enumerated for the rotator-constructor faults only)",
+    "Dataset arguments whose variables come in another order (reverse, roll), optionally with one additional variable inserted, may be refused or answered; if answered, the answer "
+    "must equal the un-mutated call's (variables are named); the fitted order plus an additional variable (first / in the middle) is a valid call and must be answered, equally",
     "a Dataset with additional variables, score arrays with additional dimensions or a subset of the model's modes, alpha > 1 and n_modes = rank are valid calls: "
     "they are run as controls that must not raise; bool n_modes is neither a fault nor a control",
     "a feature coordinate carrying the fitted labels in another order may be refused or answered; if answered, the answer must equal (1e-9 relative, label-keyed) "
@@ -79,6 +83,28 @@ SINGLE = ("EOF", "SparsePCA", "POP")
 CROSS = ("CPCCA", "MCA")
 ROT = {"EOFRotator": "EOF", "MCARotator": "MCA"}
 MULTI = ("CCA",)
+# further rotator classes: enumerated for the rotator-constructor faults only (their transform paths are the base classes')
+ROT_EXTRA = {
+    "ComplexEOFRotator": "ComplexEOF",
+    "HilbertEOFRotator": "HilbertEOF",
+    "CPCCARotator": "CPCCA",
+    "ComplexCPCCARotator": "ComplexCPCCA",
+    "HilbertCPCCARotator": "HilbertCPCCA",
+    "ComplexMCARotator": "ComplexMCA",
+    "HilbertMCARotator": "HilbertMCA",
+}
+ROT_ALL = {**ROT, **ROT_EXTRA}
+FAMILY = {"ComplexEOF": "EOF", "HilbertEOF": "EOF", "ComplexCPCCA": "CPCCA", "HilbertCPCCA": "CPCCA", "ComplexMCA": "MCA", "HilbertMCA": "MCA"}
+
+
+def _base(model):
+    return ROT_ALL.get(model, model)
+
+
+def _fam(model):
+    """EOF / SparsePCA / POP / CPCCA / MCA / CCA: the class whose configuration and call conventions `model` (or its base) follows."""
+    b = _base(model)
+    return FAMILY.get(b, b)
 
 
 # ----------------------------------------------------------------------------- data
@@ -108,6 +134,14 @@ LAYOUT = {
     # the user's labels, with two or more feature dims / a Dataset it becomes positional)
     ("X", "da1"): [dict(item=None, var=None, name="data1", dims=("lat",), coords={"lat": [-50.0, -10.0, 20.0, 40.0]})],
     ("Y", "da1"): [dict(item=None, var=None, name="y1d", dims=("lat",), coords={"lat": [-30.0, 0.0, 30.0]})],
+    # Datasets used for the variable-order presentations only: three variables of equal shape (a positional mix-up raises nothing),
+    # and a list whose first item is a Dataset
+    ("X", "ds3"): [dict(item=None, var=v, name=v, dims=("lat",), coords={"lat": [-50.0, 40.0]}) for v in ("a", "b", "c")],
+    ("X", "lds"): [
+        dict(item=0, var="a", name="a", dims=("lat",), coords={"lat": [-50.0, 0.0, 40.0]}),
+        dict(item=0, var="b", name="b", dims=("lat",), coords={"lat": [-50.0, 0.0, 40.0]}),
+        dict(item=1, var=None, name="second", dims=("lat",), coords={"lat": [-45.0, 20.0]}),
+    ],
     ("Z", "da"): [dict(item=None, var=None, name="z", dims=("lev",), coords={"lev": [1000.0, 850.0, 500.0]})],
 }
 
@@ -139,8 +173,16 @@ def build_field(role, cont, n, seed, new=False, seen_labels=False):
         out.append(da)
     if cont in ("da", "da1"):
         return out[0]
-    if cont == "ds":
+    if cont in ("ds", "ds3"):
         return xr.Dataset({da.name: da for da in out})
+    if cont == "lds":
+        items = {}
+        for pc, da in zip(LAYOUT[(role, cont)], out):
+            if pc["var"] is None:
+                items[pc["item"]] = da
+            else:
+                items.setdefault(pc["item"], {})[pc["var"]] = da
+        return [xr.Dataset(v) if isinstance(v, dict) else v for _, v in sorted(items.items())]
     return out
 
 
@@ -207,6 +249,17 @@ def data_faults(role, cont):
     return F
 
 
+VAR_ORDER_HOWS = ("reverse", "roll", "extra_first", "extra_middle", "reverse_extra_middle")
+
+
+def variable_order_faults(role, cont):
+    """Presentations of a Dataset argument: the fitted variables in another order and/or with one additional variable inserted."""
+    pieces = LAYOUT[(role, cont)]
+    item = pieces[0]["item"]
+    nvar = sum(1 for pc in pieces if pc["var"] is not None)
+    return [dict(fault="permute_dataset_variables", how=h, item=item) for h in VAR_ORDER_HOWS if not (h == "roll" and nvar < 3)]
+
+
 def permutation_faults(role, cont):
     return [f for f in data_faults(role, cont) if f["fault"] == "permute_feature_coord"]
 
@@ -233,7 +286,7 @@ def fit_faults(role, cont):
 
 
 NMODES_FAULTS = ["0", "-1", "rank+1", "three", "2.5", "None"]
-NMODES_FAULTS_ROT = ["0", "-1", "three", "2.5", "None"]
+NMODES_FAULTS_ROT = ["0", "-1", "three", "2.5", "None", "model+1", "large"]  # the last two: more modes than the fitted model has
 
 SCORE_FAULTS = (
     [dict(fault="wrong_type", how=h) for h in ("ndarray", "list_of_ndarrays", "none")]
@@ -368,6 +421,25 @@ def cases(tier, seed):
         else:
             for f in permutation_faults("X", "da1"):
                 add(model, "da1", "plain", "transform", f, field="X")
+    # ---------------- Dataset arguments: variables in another order / with an additional variable inserted
+    for model in models:
+        base = ROT.get(model, model)
+        for cont in ("ds", "ds3", "lds"):
+            for f in variable_order_faults("X", cont):
+                if base in CROSS:
+                    add(model, cont, "plain", "transform_X", f, field="X")
+                    if model not in ROT:
+                        add(model, cont, "plain", "predict", f, field="X")
+                else:
+                    add(model, cont, "plain", "transform", f, field="X")
+        if base in CROSS:
+            for f in variable_order_faults("Y", "ds"):
+                add(model, "ds", "plain", "transform_Y", f, field="Y", ycont="ds")
+    # ---------------- the other rotator classes: constructor faults of the rotator
+    for model in ROT_EXTRA:
+        for cont in ["da"] if tier == "quick" else ["da", "ds", "list"]:
+            for v in NMODES_FAULTS_ROT:
+                add(model, cont, "plain", "ctor_fit", dict(fault="n_modes", how=v))
     # ---------------- the `normalized` switch: every entry point that has one is enumerated a second time with
     # normalized=True (scores are multiplied / divided by the stored norms BEFORE the algorithm's own label lookup,
     # a different code path for mode-label and mode-dimension faults); entries without the switch are not repeated
@@ -398,6 +470,12 @@ def _in_quick(c):
             return c["model"] == "EOF" or c["container"] == "da"
         # data-argument entries: these faults are refused before the switch is looked at; one variant per kind, DataArray only
         return c["container"] == "da" and (c["fault"], c.get("how")) in _QUICK_NORMALIZED_DATA and c.get("dim") in (None, "lat", "time")
+    if c["fault"] == "permute_dataset_variables":
+        if c["model"] in ("EOF", "CPCCA"):
+            return True
+        return c["how"] in ("reverse", "roll", "reverse_extra_middle") and (c["container"] != "lds" or c["how"] == "reverse")
+    if c["model"] in ROT_EXTRA:
+        return c["how"] in ("0", "three", "model+1", "large")
     heavy = c["model"] in ("MCARotator", "EOFRotator", "SparsePCA", "POP", "MCA")  # MCA = CPCCA(alpha=1): same code paths
     if heavy:
         if c.get("how") in ("isel_keep", "len1", "overlap", "list_of_ndarrays", "empty_list", "empty_string", "partly_unknown", "all_beyond", "roll", "relabel_reverse"):
@@ -427,11 +505,11 @@ def _in_quick(c):
     return True
 
 
-_MODEL_ORDER = {m: i for i, m in enumerate(list(SINGLE) + list(CROSS) + list(ROT) + list(MULTI))}
+_MODEL_ORDER = {m: i for i, m in enumerate(list(SINGLE) + list(CROSS) + list(ROT) + list(MULTI) + list(ROT_EXTRA))}
 
 
 def _simplicity(c):
-    return (0 if c["conf"] == "plain" else 1, {"da": 0, "da1": 0, "ds": 1, "list": 2}[c["container"]], _MODEL_ORDER[c["model"]])
+    return (0 if c["conf"] == "plain" else 1, {"da": 0, "da1": 0, "ds": 1, "ds3": 1, "list": 2, "lds": 2}[c["container"]], _MODEL_ORDER[c["model"]])
 
 
 # ----------------------------------------------------------------------------- building calls
@@ -460,7 +538,7 @@ def _rank(model, cont, conf):
 
 
 def ctor_kwargs(model, conf):
-    base = ROT.get(model, model)
+    base = _fam(model)
     kw = dict(n_modes=K)
     if base in SINGLE:
         kw.update(random_state=5, solver="full")
@@ -498,6 +576,19 @@ def make(model_name, kw):
         "EOFRotator": xe.single.EOFRotator,
         "MCARotator": xe.cross.MCARotator,
         "CCA": xe.multi.CCA,
+        "ComplexEOF": xe.single.ComplexEOF,
+        "HilbertEOF": xe.single.HilbertEOF,
+        "ComplexCPCCA": xe.cross.ComplexCPCCA,
+        "HilbertCPCCA": xe.cross.HilbertCPCCA,
+        "ComplexMCA": xe.cross.ComplexMCA,
+        "HilbertMCA": xe.cross.HilbertMCA,
+        "ComplexEOFRotator": xe.single.ComplexEOFRotator,
+        "HilbertEOFRotator": xe.single.HilbertEOFRotator,
+        "CPCCARotator": xe.cross.CPCCARotator,
+        "ComplexCPCCARotator": xe.cross.ComplexCPCCARotator,
+        "HilbertCPCCARotator": xe.cross.HilbertCPCCARotator,
+        "ComplexMCARotator": xe.cross.ComplexMCARotator,
+        "HilbertMCARotator": xe.cross.HilbertMCARotator,
     }[model_name]
     return cls(**kw)
 
@@ -508,14 +599,16 @@ class Call:
     def __init__(self, case, seed):
         model, cont, conf = case["model"], case["container"], case["conf"]
         self.model, self.cont, self.conf = model, cont, conf
-        self.base = ROT.get(model, model)
-        self.kind = "single" if self.base in SINGLE else "cross" if self.base in CROSS else "multi"
-        self.is_rot = model in ROT
+        self.base = _base(model)
+        fam = _fam(model)
+        self.kind = "single" if fam in SINGLE else "cross" if fam in CROSS else "multi"
+        self.is_rot = model in ROT_ALL
         self.entry = case["entry"].split("!")[0]
         self.ctor = ctor_kwargs(model, conf)
         if case.get("solver") and "solver" in self.ctor:
             self.ctor["solver"] = case["solver"]  # part of the valid call, not a fault
-        self.rot_ctor = dict(n_modes=K, power=1, max_iter=200) if self.is_rot else None
+        # (the analytic signal of 10 samples needs more than 200 Varimax sweeps: the extra classes run with the library default)
+        self.rot_ctor = dict(n_modes=K, power=1, max_iter=200 if model in ROT else 1000) if self.is_rot else None
         ycont = case.get("ycont", "da")
         self.ycont = ycont
         if conf == "std_coslat" and self.kind == "cross" and ycont == "list":
@@ -702,6 +795,31 @@ def _permute(x, dim, how):
     raise ValueError(how)
 
 
+def _permute_vars(ds, how):
+    import xarray as xr
+
+    if not isinstance(ds, xr.Dataset):
+        raise Inapplicable("not a Dataset")
+    names = list(ds.data_vars)
+    extra = "k_extra"  # additional variables are valid (the statement says so); its position is the presentation
+    if how in ("reverse", "reverse_extra_middle"):
+        order = names[::-1]
+    elif how == "roll":
+        if len(names) < 3:
+            raise Inapplicable("roll of %d variables" % len(names))
+        order = names[1:] + names[:1]
+    else:
+        order = list(names)
+    if how == "extra_first":
+        order = [extra] + order
+    elif how in ("extra_middle", "reverse_extra_middle"):
+        order = order[:1] + [extra] + order[1:]
+    full = ds.assign({extra: ds[names[0]] * 2.0 + 1.0})
+    out = full[order]
+    assert list(out.data_vars) == order
+    return out
+
+
 def align_to(obj, like):
     """The same labelled data as `obj`, laid out in the coordinate order of `like` (harness side, plain xarray label selection)."""
     if isinstance(obj, (list, tuple)):
@@ -731,6 +849,8 @@ def mutate_data(obj, f):
         return _map_item(obj, item, lambda x: _reorder_new_values(x, f["dim"]))
     if k == "permute_feature_coord":
         return _map_item(obj, item, lambda x: _permute(x, f["dim"], f["how"]))
+    if k == "permute_dataset_variables":
+        return _map_item(obj, item, lambda x: _permute_vars(x, f["how"]))
     if k == "drop_variable":
         return obj.drop_vars(f["var"])
     if k == "rename_variable":
@@ -787,7 +907,7 @@ def apply_fault(call, case, kfit=None):
     if e == "ctor_fit":
         target = call.rot_ctor if call.is_rot else call.ctor
         if kind == "n_modes":
-            target["n_modes"] = {"0": 0, "-1": -1, "rank+1": _rank_plus_one(call.model, call.cont, call.conf), "three": "three", "2.5": 2.5, "None": None}[f["how"]]
+            target["n_modes"] = {"0": 0, "-1": -1, "rank+1": _rank_plus_one(call.model, call.cont, call.conf), "three": "three", "2.5": 2.5, "None": None, "model+1": K + 1, "large": 99}[f["how"]]
         elif kind == "n_modes_equals_rank":
             if call.is_rot:
                 call.ctor["n_modes"] = _rank(call.model, call.cont, call.conf)
@@ -995,11 +1115,33 @@ def _run_case(case, seed):
             return dict(violations=[v], outcome="violation", nontrivial=False)
         return dict(violations=[], outcome="accepted_valid", nontrivial=True, info=dict(returned=desc))
     if what == "raised":
+        if case["fault"] == "permute_dataset_variables" and case["how"] in ("extra_first", "extra_middle"):
+            # the fitted variables in the fitted order plus one additional variable: a valid call by the statement's own words
+            v = viol(
+                "valid_call_refused",
+                case["model"],
+                "a Dataset carrying an additional variable (%s) was refused: %s: %s (at %s)" % (case["how"], type(obs).__name__, str(obs)[:200], _where(obs)),
+                **feats,
+            )
+            return dict(violations=[v], outcome="violation", nontrivial=False)
         return dict(violations=[], outcome="rejected:%s" % type(obs).__name__, nontrivial=True, info=dict(exc=type(obs).__name__, at=_where(obs), baseline=base_desc))
     desc, n, nf = obs
     detail = {k: v for k, v in case.items() if k not in ("model", "container", "conf", "entry", "fault")}  # incl. solver, normalized
     if case["fault"] == "permute_feature_coord":
         return _judge_permutation(case, base, mut, feats, entry, detail, desc, base_desc, seed)
+    if case["fault"] == "permute_dataset_variables":
+        # accepted: the variables are named, so the answer must be the answer for the fitted order (= the un-mutated call)
+        ok, txt = same_result(base.result, mut.result)
+        if ok:
+            return dict(violations=[], outcome="accepted_equivalent", nontrivial=True, info=dict(returned=desc, agreement=txt))
+        v = viol(
+            "dataset_variables_misread",
+            case["model"],
+            "%s of a %s input whose Dataset variables are presented as %s was accepted and returned %s, which is NOT the answer for the same "
+            "named variables in the fitted order (%s): variables were matched by position" % (entry, case["container"], detail, desc, txt),
+            **feats,
+        )
+        return dict(violations=[v], outcome="violation", nontrivial=False, info=dict(returned=desc, disagreement=txt))
     v = viol(
         "fault_accepted",
         case["model"],
